@@ -11,7 +11,52 @@ RULE = ("schedules of 1..3 concurrent lookups (same and different names, a full-
 ASSUMPTIONS = ["atomicity of the sections between yield points (each runs under m.mu) is what the generated lock skeleton of C07 states",
                "real time is not modelled: 'bounded time' is bounded steps + progress; wall-clock is not measured here (partial)",
                "Go's runtime scheduler inside an atomic section is irrelevant by construction; a select that finds both channels ready may take either branch: the model follows the branch observed"]
-PARTS = [ConcPart(PROP, 2)]
+
+
+class Stall:
+    """deadlock part on the running code: held sender, piled-up requests, stream failure"""
+    NAME = "stall"
+    ENGINE = "stall"
+    IMPORTS = "From Xds Require Import Model.Base Model.Conc Model.ConcCheck."
+    FN = "stall_check"
+    TY = "stall_case"
+    EXTRA_ROUNDS = 1
+
+    @staticmethod
+    def gen_cases(rng, tier):
+        items = [{"pending": 300, "recv_err": False, "trials": 1}, {"pending": 1100, "recv_err": False, "trials": 1},
+                 {"pending": 300, "recv_err": True, "trials": 1}, {"pending": 1100, "recv_err": True, "trials": 4}]
+        if tier != "quick":
+            items += [{"pending": rng.choice([1026, 1500, 2500]), "recv_err": True, "trials": 10},
+                      {"pending": rng.choice([1030, 4000]), "recv_err": rng.random() < 0.5, "trials": 5}]
+        return [{"item": it} for it in items]
+
+    @staticmethod
+    def run_impl(cases):
+        from . import core
+        res = core.run_harness("stall", [{"id": 0, "items": [c["item"] for c in cases]}], timeout=600, shards=1)
+        return {c["id"]: r for c, r in zip(cases, res[0]["results"])}
+
+    @staticmethod
+    def to_gallina(c, o):
+        from .core import gN
+        it = c["item"]
+        b = lambda x: "true" if x else "false"
+        return "Build_stall_case %s %s %s %s %s %s %s %s" % (
+            gN(it["pending"]), b(it["recv_err"]), gN(o["queue_max"]), gN(max(0, o["stuck"])), b(o["hot_after"] == "val"),
+            gN(o["streams"]), b(o["resub_on_new"]), gN(o["trials_failed"]))
+
+    @staticmethod
+    def nontrivial(c, o):
+        import json
+        return json.dumps(c["item"], sort_keys=True) if o["queue_max"] > 0 else None
+
+    @staticmethod
+    def describe(c, o):
+        return {"scenario": c["item"], "observed": o}
+
+
+PARTS = [ConcPart(PROP, 2), Stall]
 
 
 # ---- lock skeleton: translator tie (regenerated from /repo on every run) ----
@@ -19,7 +64,7 @@ import os, re, subprocess
 from . import core
 
 SKEL_THEOREMS = ["C07_lock_discipline", "C07_policy_before_data", "C07_handlers_do_not_reenter",
-                 "C07_blocking_send_under_locks_without_capacity", "C07_every_path_checked", "C07_no_lock_deadlock", "C07_no_data_race"]
+                 "C07_blocking_send_under_locks_without_capacity", "C07_queue_consumer_never_waits_for_a_lock", "C07_every_path_checked", "C07_no_lock_deadlock", "C07_no_data_race"]
 SKEL_THEOREMS_FULL = ["C07_every_path_checked_full", "C07_no_lock_deadlock_full", "C07_no_data_race_full"]
 
 
